@@ -132,3 +132,10 @@ Proof. repeat split; reflexivity. Qed.
 (* the split rule on row counts: exactly 0xFFFF rows -> one subtable, one more -> [0xFFFF; 1] *)
 Example c11_split_rule : check_case (CChunks [65535; 65536; 1; 0] [65535; 65535; 1; 1; -1]) = true.
 Proof. vm_compute. reflexivity. Qed.
+
+(* a reused slice: two axes (wght 100..400..900, wdth 50..100..200), only wdth set, the slice still holds 1.0 / -1.0
+   from an earlier request and has one excess entry: wght and the excess entry come back 0 *)
+Example c11_reused_slice :
+  user_to_normalized [(2003265652, 6553600, 26214400, 58982400); (2003072104, 3276800, 6553600, 13107200)] None
+                     [(2003072104, 13107200)] [16384; -16384; 777] = Some [0; 16384; 0].
+Proof. reflexivity. Qed.
